@@ -53,6 +53,29 @@ class SpreadSource(object):
         return self.inner.get_assets_historical_closes(start_dt, end_dt, assets)
 
 
+class CoverageSource(object):
+    """A data source that refuses (raises) instants it has no observation for - a vendor API that rejects requests
+    before its coverage - instead of answering NaN as the shipped CSV source does."""
+
+    def __init__(self, inner):
+        self.inner = inner
+
+    def _ask(self, f, dt, asset):
+        v = f(dt, asset)
+        if v != v:
+            raise ValueError('%s is outside the coverage for %s' % (dt, asset))
+        return v
+
+    def get_bid(self, dt, asset):
+        return self._ask(self.inner.get_bid, dt, asset)
+
+    def get_ask(self, dt, asset):
+        return self._ask(self.inner.get_ask, dt, asset)
+
+    def get_assets_historical_closes(self, start_dt, end_dt, assets):
+        return self.inner.get_assets_historical_closes(start_dt, end_dt, assets)
+
+
 def fee_model(fee):
     """fee: None -> ZeroFeeModel, 'default' -> PercentFeeModel(), [c, t] -> PercentFeeModel(c, t)"""
     q = load()
